@@ -96,7 +96,7 @@ man={
    "kind_free_text":"Go harness: supervisor + one child process per batch (crash isolation), build-tagged hooks into the library, independent oracles/reference models, guard-page buffers, Go race detector, porcupine history checking"}],
  "checks":checks,
  "not_applicable":na,
- "notes":"Family: runtime monitoring and sanitizers. VERIF_SEED seeds every workload (default 1); VERIF_TIER overrides the tier. exit 0 held / 1 VIOLATION / 2 infrastructure error. Known findings: /verif/KNOWN_FINDINGS.txt (one open entry: C18, a tar whose first member is named pkg/gpkg-1 - printed as KNOWN-FINDING, exit 0; nine fixed entries). VERIF_REPO=<dir> makes the checks build against another working tree (used by background sweeps). Inconclusive batches are printed as INCONCLUSIVE lines and do not change the exit code.",
+ "notes":"Family: runtime monitoring and sanitizers. VERIF_SEED seeds every workload (default 1); VERIF_TIER overrides the tier. exit 0 held / 1 VIOLATION / 2 infrastructure error. Known findings: /verif/KNOWN_FINDINGS.txt (one open entry: C18, a tar whose first member is named pkg/gpkg-1 - printed as KNOWN-FINDING, exit 0; ten fixed entries for the nine repaired defects). VERIF_REPO=<dir> makes the checks build against another working tree (used by background sweeps). Inconclusive batches are printed as INCONCLUSIVE lines and do not change the exit code.",
 }
 json.dump(man,open(root+'/MANIFEST.json','w'),indent=1)
 print("wrote MANIFEST.json with",len(checks),"checks;",len(na),"not_applicable")
